@@ -168,9 +168,10 @@ def c13(r):
 
 def c14(r):
     r.tlc_exhaustive("BlockStore.tla", "BlockStore.cfg", workers=4)
-    ok, _ = r.tlc_exhaustive("BlockStore.tla", "BlockStore_stale.cfg", workers=4, expect_ok=False)
-    if ok:
-        raise Inconclusive("BlockStore_stale.cfg should reproduce the (fixed) stale hash index")
+    for cfg in ("BlockStore_stale.cfg", "BlockStore_nonatomic.cfg"):
+        ok, _ = r.tlc_exhaustive("BlockStore.tla", cfg, workers=4, expect_ok=False)
+        if ok:
+            raise Inconclusive(cfg + " should reproduce its counterexample (stale hash index / block save that is not all-or-nothing)")
     t = r.drive("store", name="store")
     r.tlc_validate("StoreTrace", t, ["C14."])
 
